@@ -52,8 +52,12 @@ Cl(b) == [k |-> "call", b |-> b]
 \* context number i around statement s (index form: programs are built in the
 \* Load action from small choices; a *set* of all programs costs TLC minutes of
 \* single-threaded normalisation)
-NCtx == 7
+NCtx == 8
 CtxI(i, s) == CASE i = 1 -> <<s>>
+                \* the statement leaves a try body whose finally block throws and catches an error of its own (the
+                \* pending outcome - a value being returned, a jump, an error - lies below that try statement's handler)
+                [] i = 8 -> <<[k |-> "try", b |-> <<s>>, hc |-> FALSE, c |-> <<>>, hf |-> TRUE,
+                               f |-> <<[k |-> "try", b |-> <<[k |-> "thr"]>>, hc |-> TRUE, c |-> <<>>, hf |-> FALSE, f |-> <<>>]>>]>>
                 [] i = 2 -> <<T0, s>>
                 [] i = 3 -> <<Lp(<<s>>)>>
                 [] i = 4 -> <<T0, Lp(<<s>>)>>
